@@ -147,7 +147,8 @@ def DragModelMultiBC(bc_points: List[BCPoint],
     else:
         bc = 1.0
 
-    drag_table = make_data_points(drag_table)  # Convert from list of dicts to list of DragDataPoints
+    # Convert from list of dicts to list of DragDataPoints; always copy, because CDs are rescaled below
+    drag_table = [DragDataPoint(point.Mach, point.CD) for point in make_data_points(drag_table)]
 
     bc_points.sort(key=lambda p: p.Mach)  # Make sure bc_points are sorted for linear interpolation
     bc_interp = linear_interpolation([x.Mach for x in drag_table],
